@@ -157,6 +157,10 @@ func (pass *DisjunctionInferMapping) buildDiscriminatorMapping(schema *ast.Schem
 			return nil, fmt.Errorf("could not resolve reference '%s'", branch.AsRef().String())
 		}
 
+		if !referredType.IsStruct() {
+			return nil, fmt.Errorf("branch '%s' is not a struct", branch.AsRef().String())
+		}
+
 		structType := referredType.AsStruct()
 
 		field, found := structType.FieldByName(def.Discriminator)
@@ -173,9 +177,19 @@ func (pass *DisjunctionInferMapping) buildDiscriminatorMapping(schema *ast.Schem
 
 		switch field.Type.Kind {
 		case ast.KindScalar:
-			mapping[field.Type.AsScalar().Value.(string)] = typeName
+			value, isString := field.Type.AsScalar().Value.(string)
+			if !isString {
+				return nil, fmt.Errorf("discriminator field '%s' is not a string", field.Name)
+			}
+
+			mapping[value] = typeName
 		case ast.KindConstantRef:
-			mapping[field.Type.AsConstantRef().ReferenceValue.(string)] = typeName
+			value, isString := field.Type.AsConstantRef().ReferenceValue.(string)
+			if !isString {
+				return nil, fmt.Errorf("discriminator field '%s' is not a string", field.Name)
+			}
+
+			mapping[value] = typeName
 		default:
 			return nil, fmt.Errorf("discriminator field '%s' is not concrete", field.Name)
 		}
